@@ -19,7 +19,8 @@ LINK_CALLS = ('xor_list_set', 'xor_list_change', 'xor_list_insert', 'list_set_ne
 
 
 def _inl(f, callee, t):
-    return False
+    from rules import common
+    return callee.short not in LINK_CALLS and common.inline_local_pure(f, callee, t)
 
 
 def _summ(db, f, roles=None):
@@ -136,21 +137,28 @@ def check_unlink(run, db):
                     probs.append('capacity_ grows by [%s], the nodes linked are size / node_size_' % linear.fmt(d or {}))
                 if not _links_rewritten(s):
                     probs.append('no links written')
-            # the linking loop / helper runs over the same count
-            count_dids = set()
-            for e in f.events():
-                if e['ev'] == 'decl':
-                    for v in e['vars']:
-                        if v.get('init') is not None and sym.canon(v['init'], {0: 'mem', 1: 'size'}) == '($size / this.node_size_)':
-                            count_dids.add(v['did'])
-            bounded = False
-            for b in f.blocks.values():
-                if b.get('term') and isinstance(b['term'].get('cond'), dict):
-                    for st in subterms(b['term']['cond']):
-                        if isinstance(st, dict) and st.get('k') == 'local' and st.get('did') in count_dids:
-                            bounded = True
+            # the linking loop / helper runs over the same count: a counted loop (engine/loops.py) that links once per cycle makes
+            # size / node_size_ - 1 links (the last node is linked to the old list outside the loop), however it counts
+            from engine import loops
             helper = [t for e, t in flow.call_events(f) if t.get('short') == 'xor_link_block']
-            if not bounded and not helper:
+            linkers = [e for e, t in flow.call_events(f) if t.get('short') in LINK_CALLS]
+            lps = [lp for lp in loops.find_loops(f) if any(e.block in lp.body for e in linkers)]
+            rl = {0: 'mem', 1: 'size'}
+            if lps:
+                lp = lps[0]
+                c = loops.counted(lp)
+                inl = [e for e in linkers if e.block in lp.body]
+                if isinstance(c, str):
+                    probs.append('the linking loop is not bounded by the node count size / node_size_ (%s)' % c)
+                elif len(inl) != 1 or not loops.once_per_cycle(lp, inl[0].block):
+                    probs.append('the linking loop does not link exactly one node per cycle')
+                else:
+                    for vals, pre in loops.entry_state(f, lp, db=db, roles=rl):
+                        T, needs = loops.evaluations(c, linear.lin(loops.subst_vals(f, c.ctr_term, vals, rl), rl), linear.lin(loops.subst_vals(f, c.bound, vals, rl), rl))
+                        ex = loops.executions(c, inl[0].block, T)
+                        if ex != {'($size / this.node_size_)': 1, '': -1}:
+                            probs.append('the linking loop is not bounded by the node count size / node_size_: it links [%s] nodes to their successors, expected [size / node_size_ - 1]' % linear.fmt(ex))
+            elif not helper:
                 probs.append('the linking loop is not bounded by the node count size / node_size_')
             _emit(run, 'R-UNLINK', f, db, probs, site('insert_impl'), 'links size/node_size_ nodes and counts them')
         # ---- deallocate(ptr, n): ceil(n / node_size) nodes go back
